@@ -469,6 +469,45 @@ func (cfg *BandConfig) bindMethods(pk *packages.Package, chain []*Struct) {
 	for i := len(chain) - 1; i >= 0; i-- {
 		lvl := chain[i]
 		cfg.owners[lvl.Type] = lvl
+		// other structs embedded at this level (a method set shared by several regions, embedded next to the band): their
+		// methods are promoted like the band's; the level's own methods, bound below, shadow them
+		if tn, ok := pk.Types.Scope().Lookup(lvl.Type).(*types.TypeName); ok {
+			if stt, ok := tn.Type().Underlying().(*types.Struct); ok {
+				for fi := 0; fi < stt.NumFields(); fi++ {
+					f := stt.Field(fi)
+					if !f.Embedded() {
+						continue
+					}
+					ft := f.Type()
+					if pt, isPtr := ft.Underlying().(*types.Pointer); isPtr {
+						ft = pt.Elem()
+					}
+					nt, ok := ft.(*types.Named)
+					if !ok || nt.Obj().Pkg() != pk.Types {
+						continue
+					}
+					name := nt.Obj().Name()
+					if i+1 < len(chain) && chain[i+1].Type == name {
+						continue // the next level of the chain
+					}
+					if _, isStruct := nt.Underlying().(*types.Struct); !isStruct {
+						continue
+					}
+					val, _ := lvl.Fields[f.Name()].(*Struct)
+					if val == nil {
+						val = &Struct{Type: name, Fields: map[string]Value{}}
+					}
+					cfg.owners[name] = val
+					for _, fd := range load.AllFuncDecls(pk) {
+						if fd.Recv == nil || load.RecvTypeName(fd.Recv.List[0].Type) != name {
+							continue
+						}
+						cfg.Methods[fd.Name.Name] = fd
+						cfg.MethodOwner[fd.Name.Name] = name
+					}
+				}
+			}
+		}
 		for _, fd := range load.AllFuncDecls(pk) {
 			if fd.Recv == nil || load.RecvTypeName(fd.Recv.List[0].Type) != lvl.Type {
 				continue
